@@ -25,24 +25,28 @@ from pyvc.core import Obl, DISCHARGED, FAILED, UNDECIDED
 FN = 'sqlparse.keywords.SQL_REGEX'
 
 
-def _quoted(q):
-    return z3.Concat(RL.lit(q), z3.Star(z3.Union(RL.not_chars(q + '\\'), RL.lit(q + q))), RL.lit(q))
+def _quoted(q, backslash=False):
+    """q body q, the body made of characters other than q and of doubled q; a backslash in the body only on request: the
+    rules read a backslash in front of a quote as an escape when that lets them go on, so a body with a backslash is ONE
+    token only as long as no further quote follows - which holds in the contexts of O1 (the region alone or next to one
+    delimiter character), not in those of O3"""
+    return z3.Concat(RL.lit(q), z3.Star(z3.Union(RL.not_chars(q if backslash else q + '\\'), RL.lit(q + q))), RL.lit(q))
 
 
 def specs(T):
-    """kind -> (opening character, token type, match by identity?, S, closing character or None, S for O2 or None)
+    """kind -> (opening character, token type, match by identity?, S, closing character or None, S for O2 or None, S for O1 or None)
     (O2 for the -- comment is stated for the line end \\n only: with \\r\\n the rule's language also contains the text up to
     the \\r - its alternation lists \\r\\n first, a matter of priority that the language does not see; bounded family)"""
     anyc = RL.all_strings()
     x_ok = z3.Intersect(z3.Concat(anyc, RL.lit('*/')), z3.Complement(z3.Concat(anyc, RL.lit('*/'), z3.Plus(RL.any_char()))))
     return {
-        'single-quoted string': ("'", T.String.Single, False, _quoted("'"), "'", None),
-        'double-quoted name': ('"', T.String.Symbol, False, _quoted('"'), '"', None),
-        'backtick-quoted name': ('`', T.Name, True, _quoted('`'), '`', None),
-        '/* */ comment': ('/', T.Comment.Multiline, False, z3.Concat(RL.lit('/*'), x_ok), None, None),
+        'single-quoted string': ("'", T.String.Single, False, _quoted("'"), "'", None, _quoted("'", True)),
+        'double-quoted name': ('"', T.String.Symbol, False, _quoted('"'), '"', None, _quoted('"', True)),
+        'backtick-quoted name': ('`', T.Name, True, _quoted('`'), '`', None, None),
+        '/* */ comment': ('/', T.Comment.Multiline, False, z3.Concat(RL.lit('/*'), x_ok), None, None, None),
         '-- comment up to its line end': ('-', T.Comment.Single, False,
                                           z3.Concat(RL.lit('--'), z3.Star(RL.not_chars('\r\n')), z3.Union(RL.lit('\n'), RL.lit('\r\n'))),
-                                          None, z3.Concat(RL.lit('--'), z3.Star(RL.not_chars('\r\n')), RL.lit('\n'))),
+                                          None, z3.Concat(RL.lit('--'), z3.Star(RL.not_chars('\r\n')), RL.lit('\n')), None),
     }
 
 
@@ -66,11 +70,89 @@ def _z3str(m, v):
     return _re.sub(r'\\u\{([0-9a-fA-F]+)\}', lambda k: chr(int(k.group(1), 16)), raw)
 
 
+def _rule_application(prop):
+    """the side condition under which a statement about a rule's language is a statement about the lexer: the scanning loop
+    applies each compiled rule as  <match>(text, pos)  - at the current position, to the whole remaining text (no end
+    position, no slice)"""
+    import ast
+    from pyvc.core import source
+    calls, matcher = [], None
+    src = source()
+    for q in ('sqlparse.lexer.Lexer.get_tokens', 'sqlparse.lexer.Lexer._scan'):
+        node = src.get(q)
+        if node is None:
+            continue
+        for n in ast.walk(node):
+            if isinstance(n, ast.For) and '_SQL_REGEX' in ast.unparse(n.iter) and isinstance(n.target, ast.Tuple) \
+                    and isinstance(n.target.elts[0], ast.Name):
+                matcher = n.target.elts[0].id
+                for c in ast.walk(n):
+                    if isinstance(c, ast.Call) and isinstance(c.func, ast.Name) and c.func.id == matcher:
+                        calls.append(c)
+    ok = bool(calls) and all(len(c.args) == 2 and not c.keywords and all(isinstance(a, ast.Name) for a in c.args) for c in calls)
+    return Obl('%s/sqlparse.lexer.Lexer.get_tokens/every rule is applied at the current position to the whole remaining text '
+               '(side condition of the region-language obligations)' % prop, 'sqlparse.lexer.Lexer.get_tokens', kind='structural',
+               backend='structural', status=DISCHARGED if ok else UNDECIDED,
+               detail={'matcher': matcher, 'calls': [ast.unparse(c) for c in calls]})
+
+
+def keyword_rule_boundaries(prop):
+    """C14 "a word in no dictionary is a Name", C11: a rule that produces a keyword token from a fixed phrase (GROUP BY, END IF,
+    NOT NULL, ...) must not match the beginning of a longer word: every alternative of the rule ends in a word boundary.
+    The rule is split into its contexted branches; a branch whose texts end in a word character and that has no condition
+    on the character behind it is replayed on the real lexer (a text of the branch followed by a letter)"""
+    from sqlparse import keywords, tokens as T
+    out = []
+    word = RL._set_re([(48, 57), (65, 90), (95, 95), (97, 122)])       # (an ASCII word character is enough for a witness)
+    for rx, a in keywords.SQL_REGEX:
+        if a is keywords.PROCESS_AS_KEYWORD or a not in T.Keyword or not any(c.isalpha() for c in rx):
+            continue
+        oid = '%s/keywords.SQL_REGEX/keyword rule %r ends at a word boundary in every alternative' % (prop, rx)
+        o = Obl(oid, FN, kind='smt', backend='z3-regex')
+        t0 = time.time()
+        try:
+            branches = RL.translate_ctx(rx)
+        except RL.Unsupported as e:
+            o.status, o.detail = UNDECIDED, {'rule': rx, 'why': 'outside the translated subset: %s' % e}
+            out.append(o)
+            continue
+        bad = None
+        m = z3.String('m')
+        for lb, rxz, la in branches:
+            if la is not None and not RL.ctx_holds(la, 'x'):
+                continue            # a word character may not follow: fine
+            v, md = RL.decide_empty([z3.InRe(m, z3.Intersect(rxz, z3.Concat(RL.all_strings(), word)))], 10000)
+            if v == 'unsat':
+                continue            # this alternative never ends in a word character
+            if v != 'sat':
+                bad = ('unknown', None)
+                break
+            text = _z3str(md, m)
+            toks = _lex(text + 'x')
+            if toks and toks[0][1] == text and toks[0][0] is a:
+                bad = ('sat', text)
+                break
+            bad = bad or ('not-reproduced', text)
+        if bad is None:
+            o.status, o.detail = DISCHARGED, {'rule': rx, 'branches': len(branches)}
+        elif bad[0] == 'sat':
+            o.status = FAILED
+            o.detail = {'rule': rx, 'text': bad[1]}
+            o.witness = {'input': bad[1] + 'x', 'failure': 'the beginning %r of the word-like text %r is lexed as a %s token'
+                         % (bad[1], bad[1] + 'x', a), 'reproduced': True}
+        else:
+            o.status, o.detail = UNDECIDED, {'rule': rx, 'verdict': bad[0], 'text': bad[1]}
+        o.seconds = time.time() - t0
+        out.append(o)
+    return out
+
+
 def obligations(prop):
     from sqlparse import keywords, tokens as T
     table = list(keywords.SQL_REGEX)
-    out = []
-    for kind, (opener, typ, ident, S, closer, S2) in specs(T).items():
+    out = [_rule_application(prop)]
+    for kind, (opener, typ, ident, S, closer, S2, S1) in specs(T).items():
+        S1 = S1 if S1 is not None else S        # (the language O1 is stated for)
         t0 = time.time()
         cands = [(i, rx) for i, (rx, a) in enumerate(table)
                  if a is not keywords.PROCESS_AS_KEYWORD and (a is typ if ident else a in typ)
@@ -91,7 +173,7 @@ def obligations(prop):
                 L = RL.translate(rx)
                 Lin = RL.translate(rx, eot_as='none')
                 used.append((i, rx, L, Lin))
-                v, _ = RL.decide_empty([z3.InRe(s, S), z3.Not(z3.InRe(s, L.re))])
+                v, _ = RL.decide_empty([z3.InRe(s, S1), z3.Not(z3.InRe(s, L.re))])
                 if v == 'unsat':
                     covered = True
                     break
@@ -121,7 +203,7 @@ def obligations(prop):
                             groups.setdefault(okl[cl] & okr[cr], (cl, cr))
                 for en, (cl, cr) in sorted(groups.items(), key=lambda kv: len(kv[0])):
                     langs = [branches[k][1] for k in sorted(en)]
-                    cs = [z3.InRe(s, S)]
+                    cs = [z3.InRe(s, S1)]
                     if langs:
                         cs.append(z3.Not(z3.InRe(s, z3.Union(*langs) if len(langs) > 1 else langs[0])))
                     v1, m1 = RL.decide_empty(cs)
